@@ -106,6 +106,9 @@ def case(idx, tier, base):
              "j": r.randint(1, 3)}
         if c["end"].startswith("ping") and ping == 0:
             c["end"] = "peer_close"
+        if ping and r.random() < 0.3:
+            # the scripted end falls together with a keep-alive tick (the ping thread is sending while the connection ends)
+            c["t"] = float(ping * r.choice([1, 1, 2]))
         conns.append(c)
     net = wire.draw_net(r)
     net["short_send_p"] = r.choice([0.0, 0.0, 0.3])
